@@ -83,7 +83,13 @@ func VerifC15() {
 	overflow := false
 	for i := 0; i < k; i++ {
 		tag := vp.Itoa(i)
-		switch vp.Choice("op"+tag, 4) {
+		switch vp.Choice("op"+tag, 5) {
+		case 4: // flush of the committed table into the register file: architecturally neutral
+			vp.Assume(rat)
+			ctx.RATFlush()
+			for _, r := range c15regs {
+				vp.Assert(ctx.Registers[r] == m.arch[r], "flush:committed-values")
+			}
 		case 0: // speculative write
 			r := c15regs[vp.Choice("reg"+tag, len(c15regs))]
 			v := vp.I32("v" + tag)
